@@ -159,6 +159,404 @@ def glue_polarity(ctx, py: PyRepo):
         n += 1
 
 
+def conj_form_contract(ctx, py: PyRepo):
+    """inductive step of the first stage: assuming every recursive call of to_conj_form keeps the stage contract (a term T with proofs
+    of `p -> T` and `T -> p`; for a constant result only one proof, of `p` or of `~p`), every returning path does.  The contract is
+    the one prove_tautology's glue is typed against (glue-polarity), so the two rules close the induction for this stage."""
+    from ..core import schema as S
+    from ..core.pyeval import PyEval, show
+    fn = py.method('Tautology', 'to_conj_form')
+    where = py.where('tautology', fn)
+    sc = S.SchemaChecker(py, ['Propositional', 'Tautology'])
+    N = sc.N
+    SELF = ('param', 'self')
+    PARAM = ('param', fn.args.args[1].arg)
+
+    def atom(n):
+        return ('P', 'Symbol', ('str', '$' + n))
+
+    def neg(t):
+        return N.apply('neg', [t])
+
+    def IMP(a, b):
+        return ('P', 'Implies', a, b)
+
+    BOT, TOP = N.apply('bot', []), N.apply('top', [])
+    EXTRACT = ('call', ('attr', ('name', 'Implies'), 'extract'), (PARAM,), ())
+    n = 0
+    for p in PyEval().paths(fn):
+        if p.end[0] != 'return':
+            continue
+        rv = p.end[1]
+        if not (rv[0] == 'tuple' and len(rv[1]) == 3):
+            ctx.ob('stage-contract', f'to_conj_form/path{n}', False, 'to_conj_form returns something other than (form, proof, proof | None)', where)
+            n += 1
+            continue
+        conds = {c: b for c, b in p.conds}
+        ov = {}
+        if conds.get(('cmp', '==', ('call', ('name', 'bot'), (), ()), PARAM)):
+            PAT = BOT
+        elif conds.get(('cmp', '==', ('call', ('name', 'top'), (), ()), PARAM)):
+            PAT = TOP
+        elif conds.get(EXTRACT):
+            P0, P1 = atom('p0'), atom('p1')
+            PAT = IMP(P0, P1)
+            for form in ('item', 'sub'):
+                for i, P in ((0, P0), (1, P1)):
+                    ov[(form, EXTRACT, i if form == 'item' else ('const', i))] = ('pat', P)
+        else:
+            PAT = atom('pat')
+        rec_T = {}
+        for i in (0, 1):
+            rec = None
+            for arg in (('sub', EXTRACT, ('const', i)), ('item', EXTRACT, i)):
+                cand = ('call', ('attr', SELF, 'to_conj_form'), (arg,), ())
+                if ('call', ('name', 'isinstance'), (('item', cand, 0), ('name', 'CFBot')), ()) in conds:
+                    rec = cand
+            if rec is None:
+                continue
+            cf = ('item', rec, 0)
+            is_bot = conds.get(('call', ('name', 'isinstance'), (cf, ('name', 'CFBot')), ()))
+            Pi = atom(f'p{i}')
+            flag = conds.get(('attr', cf, 'negated'))
+            if is_bot:
+                if flag is None:
+                    continue
+                ov[('item', rec, 1)] = ('pf', Pi if flag else neg(Pi))
+                continue
+            B = atom(f'B{i}')
+            for e in p.events:
+                if e.kind == 'setattr' and e.value[0] == cf and e.value[1] == 'negated' and e.value[2][0] == 'const':
+                    pass
+            T_in = (neg(B) if flag else B) if flag is not None else atom(f'T{i}')
+            ov[('item', rec, 1)], ov[('item', rec, 2)] = ('pf', IMP(Pi, T_in)), ('pf', IMP(T_in, Pi))
+            final = flag
+            for e in p.events:
+                if e.kind == 'setattr' and e.value[0] == cf and e.value[1] == 'negated' and e.value[2][0] == 'const':
+                    final = bool(e.value[2][1])
+            rec_T[cf] = (neg(B) if final else B) if final is not None else T_in
+
+        def T_of(v):
+            if v in rec_T:
+                return rec_T[v]
+            if v[0] == 'call' and v[1] == ('name', 'CFVar'):
+                return PAT
+            if v[0] == 'call' and v[1] == ('name', 'CFOr') and len(v[2]) == 2:
+                a, b = T_of(v[2][0]), T_of(v[2][1])
+                return None if a is None or b is None else N.apply('_or', [a, b])
+            return None
+
+        cfv, pf1, pf2 = rv[1]
+        tag = f'to_conj_form/{show(cfv)[:44]}#{n}'
+        n += 1
+        ty = S.Typer(sc, {PARAM[1]: ('pat', PAT)}, 'to_conj_form', 'Tautology')
+        ty.overrides = ov
+        try:
+            if cfv[0] == 'call' and cfv[1] == ('name', 'CFBot') and len(cfv[2]) == 1 and cfv[2][0][0] == 'const':
+                want1 = PAT if cfv[2][0][1] else neg(PAT)
+                got1 = ty.pf(pf1)
+                ctx.ob('stage-contract', tag, got1 == want1 and pf2 == ('const', None),
+                       f'for a constant result the first proof must prove {"the input" if cfv[2][0][1] else "the negated input"} '
+                       f'{S.tshow(want1)}; it proves {S.tshow(got1)}', where)
+                continue
+            T = T_of(cfv)
+            if T is None:
+                ctx.require(False, f'to_conj_form: returned form {show(cfv)[:60]} is outside the analysed subset')
+            got1, got2 = ty.pf(pf1), ty.pf(pf2)
+            bad = []
+            if got1 != IMP(PAT, T):
+                bad.append(f'the first proof concludes {S.tshow(got1)}, the contract is input -> form = {S.tshow(IMP(PAT, T))}')
+            if got2 != IMP(T, PAT):
+                bad.append(f'the second proof concludes {S.tshow(got2)}, the contract is form -> input = {S.tshow(IMP(T, PAT))}')
+            ctx.ob('stage-contract', tag, not bad, '; '.join(bad) + ' (input = ' + S.tshow(PAT) + ', recursive results assumed to keep the contract)',
+                   where, facts={'form': S.tshow(T)})
+        except S.Violation as v:
+            ctx.ob('stage-contract', tag, False, f'does not type-check under the stage contract of the recursive calls: {v}', where)
+        except S.Decline as d:
+            ctx.decline(tag, str(d))
+    ctx.analysed['to_conj_form returning paths'] = n
+
+
+def _walk(v):
+    if isinstance(v, tuple) and v:
+        yield v
+        for x in v:
+            if isinstance(x, tuple):
+                yield from _walk(x)
+
+
+def resolution_contract(ctx, py: PyRepo):
+    """inductive step of the refutation builder: assuming each recursive call of build_proof_from_hint returns a clause L with a proof
+    of `CONJ -> clause_to_pattern(L)`, and simplify_clause / merge_clauses keep their contracts (equivalences, stated as assumptions),
+    the resolution branch returns the resolvent clause with a proof of `CONJ -> clause_to_pattern(resolvent)` in each of the four
+    emptiness cases of the two remainders."""
+    from ..core import schema as S
+    from ..core.pyeval import PyEval, show
+    fn = py.method('Tautology', 'build_proof_from_hint')
+    where = py.where('tautology', fn)
+    sc = S.SchemaChecker(py, ['Propositional', 'Tautology'])
+    N = sc.N
+    SELF = ('param', 'self')
+
+    def atom(n):
+        return ('P', 'Symbol', ('str', '$' + n))
+
+    def IMP(a, b):
+        return ('P', 'Implies', a, b)
+
+    CONJ, P, A, B, M = atom('CONJ'), atom('P'), atom('A'), atom('B'), atom('M')
+    NEGP = N.apply('neg', [P])
+    BOT = N.apply('bot', [])
+    # the stored resolvant is the absolute value: the left parent holds the negative literal
+    ra = py.method('Tautology', 'resolution_algorithm')
+    mk = [c for c in ast.walk(ra) if isinstance(c, ast.Call) and ast.unparse(c.func) == 'ResolutionHintSource']
+    ctx.ob('stage-contract', 'resolution/resolvant-is-absolute', len(mk) == 1 and len(mk[0].args) == 3 and ast.unparse(mk[0].args[2]).startswith('abs('),
+           'resolution_algorithm must record the resolved variable as abs(literal): build_proof_from_hint negates it for the left parent',
+           py.where('tautology', ra))
+    n = 0
+    for p in PyEval().paths(fn):
+        if p.end[0] != 'return':
+            continue
+        rv = p.end[1]
+        if not (rv[0] == 'tuple' and len(rv[1]) == 2):
+            ctx.ob('stage-contract', f'build_proof_from_hint/path{n}', False, 'returns something other than (clause, proof)', where)
+            n += 1
+            continue
+        lst, pfv = rv[1]
+        recs = [v for v in _walk(pfv) if v[0] == 'call' and v[1] == ('attr', SELF, 'build_proof_from_hint')]
+        if not recs:
+            # leaf: the n-th clause with the projection out of the conjunction; index agreement
+            ok = pfv[0] == 'call' and pfv[1] == ('attr', SELF, 'conjunction_implies_nth') and len(pfv[2]) == 3 \
+                and lst[0] == 'sub' and pfv[2][1] == lst[2] and pfv[2][0][0] == 'call' and pfv[2][0][1] == ('name', 'clause_conjunctionto_pattern') \
+                and pfv[2][0][2] == (lst[1],)
+            ctx.ob('stage-contract', 'build_proof_from_hint/leaf', ok,
+                   f'an input clause must be returned with the projection of the same index out of the conjunction of the same clause list; '
+                   f'returns {show(rv)[:120]}', where)
+            n += 1
+            continue
+        sides = {}
+        for r in recs:
+            which = 'l' if 'left_set' in repr(r[2][1]) else ('r' if 'right_set' in repr(r[2][1]) else None)
+            if which:
+                sides[which] = r
+        simp = {}
+        for v in _walk(rv):
+            if v[0] == 'call' and v[1] == ('attr', SELF, 'simplify_clause') and len(v[2]) == 2:
+                for w, r in sides.items():
+                    if v[2][0] == ('item', r, 0):
+                        simp[w] = v
+        ctx.require(set(sides) == {'l', 'r'} and set(simp) == {'l', 'r'}, 'build_proof_from_hint: the two parents / their simplification not recognised')
+        # the literal each parent is normalised on: -resolvant on the left, resolvant on the right
+        neg_left = simp['l'][2][1][0] == 'unop' and simp['r'][2][1] == simp['l'][2][1][2] if len(simp['l'][2][1]) > 2 else False
+        conds = {c: b for c, b in p.conds}
+        empt = {}
+        for w in ('l', 'r'):
+            rest = None
+            for c, b in p.conds:
+                if c[0] == 'cmp' and c[1] == '==' and c[3] == ('const', 0) and c[2][0] == 'call' and c[2][1] == ('name', 'len') \
+                        and ('item', simp[w], 0) in list(_walk(c[2])):
+                    empt[w] = b
+                    rest = c[2][2][0]
+            ctx.require(w in empt, 'build_proof_from_hint: emptiness case of a remainder not found on the path')
+            simp[w + '_rest'] = rest
+        CL = {'l': (NEGP if empt['l'] else N.apply('_or', [NEGP, A])), 'r': (P if empt['r'] else N.apply('_or', [P, B]))}
+        ov = {}
+        for w in ('l', 'r'):
+            C0 = atom('C' + w)
+            ov[('item', sides[w], 1)] = ('pf', IMP(CONJ, C0))
+            ov[('item', simp[w], 1)] = ('pf', N.apply('equiv', [C0, CL[w]]))
+        for v in _walk(pfv):
+            if v[0] == 'call' and v[1] == ('name', 'id_to_metavar'):
+                ov[v] = ('pat', P)
+            if v[0] == 'call' and v[1] == ('name', 'clause_to_pattern') and len(v[2]) == 1:
+                if v[2][0] == simp['l_rest']:
+                    ov[v] = ('pat', BOT if empt['l'] else A)
+                elif v[2][0] == simp['r_rest']:
+                    ov[v] = ('pat', BOT if empt['r'] else B)
+            if v[0] == 'call' and v[1] == ('attr', SELF, 'merge_clauses') and len(v[2]) == 3:
+                ov[v] = ('pf', N.apply('equiv', [N.apply('_or', [A, B]), M]))
+        want_C = BOT if (empt['l'] and empt['r']) else (B if empt['l'] else (A if empt['r'] else M))
+        # the clause returned is left remainder + right remainder
+        ok_list = lst == ('binop', 'Add', simp['l_rest'], simp['r_rest'])
+        tag = f'build_proof_from_hint/left-{"empty" if empt["l"] else "rest"}-right-{"empty" if empt["r"] else "rest"}'
+        ty = S.Typer(sc, {}, 'build_proof_from_hint', 'Tautology')
+        ty.overrides = ov
+        try:
+            got = ty.pf(pfv)
+            ctx.ob('stage-contract', tag, ok_list and bool(neg_left) and got == IMP(CONJ, want_C),
+                   f'with the left remainder {"empty" if empt["l"] else "A"} and the right remainder {"empty" if empt["r"] else "B"} the proof '
+                   f'must conclude CONJ -> {S.tshow(want_C)} for the clause (left remainder + right remainder); it concludes {S.tshow(got)}'
+                   + ('' if ok_list else f' and the clause returned is {show(lst)[:80]}'), where)
+        except S.Violation as v:
+            ctx.ob('stage-contract', tag, False, f'does not type-check under the contracts of the recursive calls: {v}', where)
+        except S.Decline as d:
+            ctx.decline(tag, str(d))
+        n += 1
+    ctx.analysed['build_proof_from_hint returning paths'] = n
+
+
+def form_stage_contract(ctx, py: PyRepo, meth: str):
+    """inductive step of a stage working on conjunctive-form trees (propag_neg, to_cnf): assuming every recursive call returns a form
+    with proofs of `T(arg) -> T(result)` and `T(result) -> T(arg)` (T = conj_to_pattern), every returning path returns a form with
+    proofs of `T(term) -> T(form)` and `T(form) -> T(term)`.  Sub-forms are opaque patterns; a result tested to be a conjunction is the
+    conjunction of its two (opaque) children; a negation flag flipped before the recursive calls is seen flipped by them; a flag
+    that is flipped but never tested on a path is split into both values."""
+    import itertools
+    from ..core import schema as S
+    from ..core.pyeval import PyEval, show
+    fn = py.method('Tautology', meth)
+    where = py.where('tautology', fn)
+    sc = S.SchemaChecker(py, ['Propositional', 'Tautology'])
+    N = sc.N
+    SELF = ('param', 'self')
+    TERM = ('param', fn.args.args[1].arg)
+    n = 0
+
+    def one_case(p, rv, conds, suffix):
+        atoms = {}
+
+        def atom(key, hint):
+            if key not in atoms:
+                atoms[key] = ('P', 'Symbol', ('str', f'${hint}{len(atoms)}'))
+            return atoms[key]
+
+        def is_a(v, cls):
+            return conds.get(('call', ('name', 'isinstance'), (v, ('name', cls)), ()))
+
+        flips = {}
+        for i, e in enumerate(p.events):
+            if e.kind == 'setattr' and e.value[1] == 'negated':
+                obj, val = e.value[0], e.value[2]
+                flips[obj] = i if val == ('not', ('attr', obj, 'negated')) else None
+        first_rec = min([i for i, e in enumerate(p.events) if e.kind == 'ecall' and e.value[0] == 'call' and e.value[1] == ('attr', SELF, meth)],
+                        default=len(p.events))
+
+        def T(v, post=False):
+            """pattern denoted by a form value; post: as seen by the recursive calls, i.e. after the flag flips of this path"""
+            if v[0] == 'call' and v[1] in (('name', 'CFAnd'), ('name', 'CFOr')) and len(v[2]) == 2:
+                return N.apply('_and' if v[1][1] == 'CFAnd' else '_or', [T(v[2][0], post), T(v[2][1], post)])
+            flag = conds.get(('attr', v, 'negated'))
+            if v in flips:
+                if flips[v] is None or flips[v] > first_rec or flag is None:
+                    raise S.Decline(f'{meth}: the negation flag of {show(v)} is rewritten in a way the analysis does not follow')
+                if post:
+                    flag = not flag
+
+            def wrap(t):
+                return t if flag is None else (N.apply('neg', [t]) if flag else t)
+            if is_a(v, 'CFVar'):
+                return atom(('lit', v), 'lit') if flag is None else wrap(atom(('var', v), 'v'))
+            if is_a(v, 'CFAnd'):
+                return wrap(N.apply('_and', [T(('attr', v, 'left'), post), T(('attr', v, 'right'), post)]))
+            if is_a(v, 'CFOr'):
+                return wrap(N.apply('_or', [T(('attr', v, 'left'), post), T(('attr', v, 'right'), post)]))
+            return atom(('form', v), 't') if flag is None else wrap(atom(('base', v), 'b'))
+
+        form, pf1, pf2 = rv[1]
+        tag = f'{meth}/{show(form)[:40]}#{n}{suffix}'
+        try:
+            ov = {}
+            for v in _walk(rv):
+                if v[0] == 'call' and v[1] == ('attr', SELF, meth) and len(v[2]) == 1:
+                    ta, tr = T(v[2][0], post=True), T(('item', v, 0))
+                    ov[('item', v, 1)] = ('pf', ('P', 'Implies', ta, tr))
+                    ov[('item', v, 2)] = ('pf', ('P', 'Implies', tr, ta))
+                if v[0] == 'call' and v[1] == ('name', 'MetaVar') and len(v[2]) == 1 and v[2][0] == ('attr', TERM, 'id'):
+                    ov[v] = ('pat', atom(('var', TERM), 'v'))
+            ty = S.Typer(sc, {}, meth, 'Tautology')
+            ty.overrides = ov
+            tin, tout = T(TERM), T(form)
+            got1, got2 = ty.pf(pf1), ty.pf(pf2)
+            bad = []
+            if got1 != ('P', 'Implies', tin, tout):
+                bad.append(f'the first proof concludes {S.tshow(got1)}, the contract is T(term) -> T(form) = {S.tshow(("P", "Implies", tin, tout))}')
+            if got2 != ('P', 'Implies', tout, tin):
+                bad.append(f'the second proof concludes {S.tshow(got2)}, the contract is T(form) -> T(term) = {S.tshow(("P", "Implies", tout, tin))}')
+            ctx.ob('stage-contract', tag, not bad, '; '.join(bad), where, facts={'T(term)': S.tshow(tin), 'T(form)': S.tshow(tout)})
+        except S.Violation as v:
+            ctx.ob('stage-contract', tag, False, f'does not type-check under the stage contract of the recursive calls: {v}', where)
+        except S.Decline as d:
+            ctx.decline(tag, str(d))
+
+    for p in PyEval().paths(fn):
+        if p.end[0] != 'return':
+            continue
+        rv = p.end[1]
+        if not (rv[0] == 'tuple' and len(rv[1]) == 3):
+            ctx.ob('stage-contract', f'{meth}/path{n}', False, f'{meth} returns something other than (form, proof, proof)', where)
+            n += 1
+            continue
+        base = {c: b for c, b in p.conds}
+        unknown = list(dict.fromkeys(e.value[0] for e in p.events if e.kind == 'setattr' and e.value[1] == 'negated'
+                                     and ('attr', e.value[0], 'negated') not in base))
+        for assignment in itertools.product([False, True], repeat=len(unknown)):
+            conds = dict(base)
+            for obj, val in zip(unknown, assignment):
+                conds[('attr', obj, 'negated')] = val
+            one_case(p, rv, conds, ''.join(f'[{show(o)[-10:]}.negated={v}]' for o, v in zip(unknown, assignment)))
+        n += 1
+    ctx.analysed[f'{meth} returning paths (contract)'] = n
+
+
+def literal_encoding(ctx, py: PyRepo):
+    """clauses are lists of non-zero integers: to_clauses encodes variable t as t+1 and its negation as -(t+1); id_to_metavar decodes.
+    The two are inverse (linear arithmetic on the index expressions), and the signs cannot meet (0 is excluded)."""
+    from .c16 import Lin
+    tc = py.method('Tautology', 'to_clauses')
+    dec = py.function('tautology', 'id_to_metavar')
+    where = py.where('tautology', tc)
+    TERM = tc.args.args[1].arg
+    # encoder: in the CFVar branch, `id = <expr>` under term.negated / not
+    enc = {}
+    for node in ast.walk(tc):
+        if isinstance(node, ast.If) and ast.unparse(node.test) == f'{TERM}.negated':
+            for pol, blk in ((True, node.body), (False, node.orelse)):
+                for st in blk:
+                    if isinstance(st, ast.Assign) and isinstance(st.targets[0], ast.Name) and st.targets[0].id == 'id':
+                        enc[pol] = st.value
+    ctx.require(set(enc) == {True, False}, 'to_clauses: literal numbering of a variable not found')
+    # decoder: `if id < 0: return neg(MetaVar(<expr>))` / `return MetaVar(<expr>)`
+    P = dec.args.args[0].arg
+    dd = {}
+    for node in dec.body:
+        if isinstance(node, ast.If) and ast.unparse(node.test) == f'{P} < 0':
+            for r in ast.walk(node):
+                if isinstance(r, ast.Return):
+                    m = [c for c in ast.walk(r.value) if isinstance(c, ast.Call) and ast.unparse(c.func) == 'MetaVar']
+                    if m and ast.unparse(r.value).startswith('neg('):
+                        dd[True] = m[0].args[0]
+        if isinstance(node, ast.Return):
+            m = [c for c in ast.walk(node.value) if isinstance(c, ast.Call) and ast.unparse(c.func) == 'MetaVar']
+            if m and not ast.unparse(node.value).startswith('neg('):
+                dd[False] = m[0].args[0]
+    ctx.require(set(dd) == {True, False}, 'id_to_metavar: decoding of a literal not found')
+    def lin(e, sub):
+        """linear form of e with Name/Attribute leaves mapped through sub"""
+        if isinstance(e, (ast.Attribute, ast.Name)) and ast.unparse(e) in sub:
+            return sub[ast.unparse(e)]
+        if isinstance(e, ast.Constant) and isinstance(e.value, int):
+            return Lin(e.value)
+        if isinstance(e, ast.UnaryOp) and isinstance(e.op, ast.USub):
+            return lin(e.operand, sub).scale(-1)
+        if isinstance(e, ast.BinOp) and isinstance(e.op, (ast.Add, ast.Sub)):
+            r = lin(e.right, sub)
+            return lin(e.left, sub) + (r if isinstance(e.op, ast.Add) else r.scale(-1))
+        raise ValueError(ast.unparse(e))
+
+    t = Lin(0, {'t': 1})
+    for pol in (True, False):
+        try:
+            code = lin(enc[pol], {f'{TERM}.id': t})
+            back = lin(dd[pol], {P: code})
+            sign_ok = (code.t.get('t') == -1 and code.c < 0) if pol else (code.t.get('t') == 1 and code.c > 0)
+            ctx.ob('literal-encoding', 'negative' if pol else 'positive', back == t and sign_ok,
+                   f'variable t{" negated" if pol else ""} is numbered {code} and decoded as variable {back}: the decoding must give t back and '
+                   f'{"negative" if pol else "positive"} literals must be {"< 0" if pol else "> 0"} for every t >= 0', where,
+                   facts={'code': repr(code), 'decoded': repr(back)})
+        except ValueError as ex:
+            ctx.require(False, f'literal numbering is not linear: {ex}')
+
+
 def cnf_shape(ctx, py: PyRepo):
     """advertised shape of to_cnf, by induction on the recursion: assuming every recursive call returns a term in CNF, every return
     does.  Shapes: LIT (variable) < CLAUSE (tree of ORs over literals) < CNF ; AND = CNF whose root is a conjunction.  A CNF term whose
@@ -257,11 +655,18 @@ def fold_direction(ctx, py: PyRepo):
 def run(ctx):
     py = PyRepo.get()
     glue_polarity(ctx, py)
+    conj_form_contract(ctx, py)
+    resolution_contract(ctx, py)
+    form_stage_contract(ctx, py, 'propag_neg')
+    form_stage_contract(ctx, py, 'to_cnf')
+    literal_encoding(ctx, py)
     cnf_shape(ctx, py)
     fold_direction(ctx, py)
     ctx.floor('cnf-shape', 5)
     ctx.floor('fold-direction', 1)
     ctx.floor('glue-polarity', 4)
+    ctx.floor('stage-contract', 28)
+    ctx.floor('literal-encoding', 2)
     fn = py.method('Tautology', 'resolution_algorithm')
     where = py.where('tautology', fn)
     outers = [n for n in fn.body if isinstance(n, ast.For)]
